@@ -36,6 +36,7 @@ M = [
     ('debug-break-range', 'src/app/debug.rs', 'if num >= un_opt_code.len() {', 'if num > un_opt_code.len() {', 1, ['C11']),
     ('debug-prev-twice', 'src/app/debug.rs', 'if state_stack.len() > 1 {', 'if state_stack.len() > 2 {', 1, ['C11']),
     ('repl-no-flush-err', 'src/app/interpreter.rs', '        out.flush().unwrap();\n        err.flush().unwrap();\n    }', '        out.flush().unwrap();\n    }', 1, ['C12']),
+    ('repl-colour-trims', 'src/app/interpreter.rs', '                writeln!(stdout, "] {}", x)?;', '                if stdout.supports_color() {\n                    writeln!(stdout, "] {}", x.trim_end())?;\n                } else {\n                    writeln!(stdout, "] {}", x)?;\n                }', 1, ['C12']),
     ('io-extension', 'src/util/io.rs', 'if p == OsStr::new("hyeong") {', 'if p == OsStr::new("hyeong") || p == OsStr::new("txt") {', 1, ['C13']),
     ('ext-scalar-check', 'src/util/ext.rs', 'std::char::from_u32(n).ok_or_else(|| {', 'Some(std::char::from_u32(n).unwrap()).ok_or_else(|| {', 1, ['C13', 'C01']),
     ('exec-stdin-order', 'src/core/execute.rs', 'for c in s.chars().rev() {', 'for c in s.chars() {', 1, ['C14', 'C01']),
